@@ -8,7 +8,7 @@ CFG = dict(
     rule="one case = one random typed expression (depth 1-4 over columns a,b,s,t,f,n: arithmetic, comparisons, AND/OR/NOT, searched and simple CASE, "
          "nested CASE, calls, redundant parentheses) printed to SQL, compiled once in SELECT and (conditions) in WHERE position, evaluated on 15 rows "
          "(int/float/text/bool/NULL/missing cells, type-mixed rows, one fully typed row, 4 rows repeated after differently typed rows); every 6th case is "
-         "54 direct calls of built-in functions (44 names, in- and out-of-domain arguments, wrong arities, 14 repeated); distinct = distinct (cfg, op list) Added late: `if_null(leaf, leaf)` as an operand (a function with exactly two arguments followed by arithmetic). Every fifth case runs under WithHighPerformance (`preset high`), for C05/C06/C12/C13/C14/C16/C20 another fifth under WithLowLatency (`preset low`); every seventh case follows a noise prelude (failing statements, malformed rows, panicking sink / function in other instances).",
+         "54 direct calls of built-in functions (44 names, in- and out-of-domain arguments, wrong arities, 14 repeated); distinct = distinct (cfg, op list) Added late: `if_null(leaf, leaf)` as an operand (a function with exactly two arguments followed by arithmetic); `+` between two texts. Every fifth case runs under WithHighPerformance (`preset high`), for C05/C06/C12/C13/C14/C16/C20 another fifth under WithLowLatency (`preset low`); every seventh case follows a noise prelude (failing statements, malformed rows, panicking sink / function in other instances).",
     assumptions=["the expr-lang VM is not modelled: `xl` is a table of its behaviour for the operator shapes of the grammar, validated by correspondence only",
                  "the Go parsers (rsql SELECT/WHERE re-assembly, expr/parser.go) are not modelled: precedence and parentheses are checked by evaluating the printed text on the engine against the AST on the model",
                  "`Env.fn` (the built-in functions) is shared by model and reference; 15 functions are transliterated and compared by direct calls, the other 29 of the slice are checked for no-panic and history-independence only",
